@@ -196,7 +196,8 @@ fn lattice(ctx: &mut Ctx, name: &str, shapes: &[(usize, usize)], pats: &[usize])
             for (yd, yu) in &ys {
                 ctx.inner(j);
                 j += 1;
-                mul_pair(ctx, xd, yd, xu, yu, false);
+                // the BigInt wrappers (four sign pairs x four forms) on one pattern pair of every shape
+                mul_pair(ctx, xd, yd, xu, yu, j % 29 == 1);
             }
         }
         if lx == ly {
@@ -265,7 +266,7 @@ fn body(ctx: &mut Ctx) {
                     for sy in ns..2 * ns {
                         let (xd, yd) = (alpha::lcg_digits(lx, sx), alpha::lcg_digits(ly, sy));
                         let (xu, yu) = (bu(&xd), bu(&yd));
-                        mul_pair(ctx, &xd, &yd, &xu, &yu, false);
+                        mul_pair(ctx, &xd, &yd, &xu, &yu, sx == 0 && sy == ns);
                         if sx == 0 && sy == ns {
                             mul_slack(ctx, &xd, &yd, &xu, &yu);
                             mul_slack(ctx, &yd, &xd, &yu, &xu);
@@ -282,7 +283,7 @@ fn body(ctx: &mut Ctx) {
             for (lx, ly) in [(257usize, 257usize), (257, 400), (300, 600), (400, 401), (770, 771), (1030, 1500)] {
                 let (xd, yd) = (alpha::lcg_digits(lx, 1), alpha::lcg_digits(ly, 2));
                 let (xu, yu) = (bu(&xd), bu(&yd));
-                mul_pair(ctx, &xd, &yd, &xu, &yu, false);
+                mul_pair(ctx, &xd, &yd, &xu, &yu, true);
             }
             ctx.sample(|| "dense LCG operands in the Toom-3 regime: 257x257 ... 1030x1500 digits".to_string());
         }
